@@ -628,7 +628,14 @@ class Constructs(mixin.Container, core.Constructs):
 
         for key, cm in cell_methods.items():
             qualifiers = cm.qualifiers()
-            if not ("within" in qualifiers or "over" in qualifiers):
+            if not (
+                "within" in qualifiers
+                # An "over" qualifier that follows a "where" qualifier
+                # names an area type (e.g. "mean where land over
+                # all_area_types"), rather than a climatological time
+                # period (e.g. "mean over years").
+                or ("over" in qualifiers and "where" not in qualifiers)
+            ):
                 continue
 
             axes = cm.get_axes(default=())
